@@ -52,7 +52,8 @@ MUTANTS = [
     ("c05-ge", ["C05"], G,
      "        if missing_reference_count > 0\n", "        if missing_reference_count > 1\n", "verdict threshold"),
     ("c05-count-unusable", ["C05"], G,
-     "                    );\n\n                    continue;\n                }\n", "                    );\n                }\n", "unusable counted as missing"),
+     "                if !reference.usable_reference_position()\n                {\n                    task::spawn",
+     "                if !reference.usable_reference_position() && path.is_empty()\n                {\n                    task::spawn", "unusable counted as missing"),
     ("c05-column-shift", ["C05", "C13"], RP,
      "                                    rule_ref_container_span.start_pos().line_col().1 + 1,\n", "                                    rule_ref_container_span.start_pos().line_col().1,\n", "column and offset disagree"),
     # ---- C07
